@@ -696,6 +696,9 @@ func (n *ExtendsNode) Render(w io.Writer, ctx *RenderContext) error {
 	parentCtx.extending = true // Flag that the parent is being extended
 	parentCtx.sandboxed = ctx.sandboxed
 	parentCtx.templateName = ctx.templateName
+	// An extending template that was itself included still reads the including
+	// template's variables: only the local scope was copied above
+	parentCtx.parent = ctx.parent
 
 	// Pass along the parent template as lastLoadedTemplate for relative path resolution
 	parentCtx.lastLoadedTemplate = parentTemplate
